@@ -268,9 +268,34 @@ def _f_worker(args):
     return out
 
 
+
+def _f_search_worker(args):
+    """implementation-only search for a configuration on which the oracle of [pid] fails"""
+    pid, n, seed = args
+    rng = random.Random(seed)
+    found = []
+    for i in range(n):
+        c = factory.gen_config(rng, with_fleet=True) if i % 3 else factory.gen_config_sc(rng)
+        try:
+            out = factory.run_impl(c)
+        except Exception:  # noqa
+            continue
+        for prop, msg in factory_oracle.check(c, out):
+            if prop == pid:
+                found.append(dict(**{"class": "factory"}, message=msg, case=c))
+                break
+        if pid == "C03" and not found and not any(l.startswith(("CRASH", "EXHAUSTED")) for l in out):
+            verdict = factory.run_monitor([c], [out])[0]
+            if not verdict.startswith("ACCEPT"):
+                found.append(dict(**{"class": "factory"}, message="conservation monitor: " + verdict, case=c))
+        if found:
+            break
+    return found
+
+
 def run_factory(pid, tier, seed):
-    n = 320 if tier == "quick" else 24000
-    shards = 8 if tier == "quick" else 16
+    n = 1600 if tier == "quick" else 48000
+    shards = 16
     corpus = load_corpus("factory", None)
     jobs = [(pid, n // shards, seed * 131 + k, corpus if k == 0 else []) for k in range(shards)]
     with multiprocessing.Pool(min(16, shards)) as pool:
@@ -281,6 +306,13 @@ def run_factory(pid, tier, seed):
         res["evaluations"] += o["evals"]; res["traces"] += o["evals"]; res["distinct_nontrivial"] += o["sigs"]
         res["disagreements"] += o["dis"]; res["violations"] += o["viol"]; res["samples"] += o["samples"]
         tags.update(o["tags"]); lines += o["lines"]
+    if res["disagreements"] and not res["violations"]:
+        # the tie is broken: search the implementation for a concrete failing configuration (4.3)
+        per = 150 if tier == "quick" else 3000
+        with multiprocessing.Pool(16) as pool:
+            for f in pool.map(_f_search_worker, [(pid, per, seed * 7919 + k) for k in range(16)]):
+                res["violations"] += f[:1]
+        res["evaluations"] += 16 * per
     res["rule"] = ("random factories (two thirds: 1-2 sources, 0-2 layers of 1-2 machines, 1-2 sinks, fan-in/fan-out; one third: pallet "
                    "source + item sources -> combiner -> optional machine -> splitter -> sinks), Buffer (FIFO/LIFO, delay "
                    "stream constant/callable/generator) and Fleet edges, every blocking flag, work_capacity 1-3, policies "
